@@ -154,7 +154,9 @@ class CHECK(core.Check):
                   "(per connection: bytes accepted by the socket ++ .txbs/.txes ++ queued packets = bytes handed to transmit, so "
                   "no loss, duplication or reordering), C36_client_drains / C36_server_drains (everything reaches the socket "
                   "once it accepts), C36_client_rx_each_byte_once, C36_server_rx_each_byte_once (received packets ++ buffer = "
-                  "bytes delivered, any parser), C36_*_rx_complete (whole-buffer parser leaves nothing behind). "
+                  "bytes delivered, any parser), C36_*_rx_complete (whole-buffer parser leaves nothing behind), "
+                  "C36_framed_packets_recovered (a length-prefixed stream is cut into exactly its packets), "
+                  "C36_server_queue_moves, C36_server_addresses_distinct. "
                   "Counterexamples for the unpatched tree: C36_counterexample_asis_server_send (D21 TypeError), "
                   "_server_accept (D21b NameError), _client_tail_stuck (D21c).")
     LEVEL_NOTE = ("Trusted: Lean kernel; axioms propext, Classical.choice, Quot.sound; the hand transcription of the two stacks and "
